@@ -52,7 +52,7 @@ def run(chk: harness.Check):
         "matching public Metadata accessor must contain the same function while the accessor reads the same key constant; process_frontmatter and "
         "metadata() call check_std_entry with self.converter and store its Servings in content.data. D2: integer arithmetic inventory restricted to the "
         "metadata module. D3: in value_as_servings no order-changing or element-removing Vec method is applied to the vector that is returned, and every "
-        "dedup/windows test runs on a vector that was sorted first. D6: the number of a number-unit pair is cut by find(|c| !c.is_ascii_digit() && c != '.'). D5: nothing reachable from check_std_entry is one of the error-discarding accessors (value_as_*(..).ok()). D4: value_as_tags returns a vector it fills by pushes that lie under the false outcomes of is_empty() and contains(). Necessary conditions: what the parsers accept is not decided.")
+        "dedup/windows test runs on a vector that was sorted first. D7: the by-name minutes unit is a Time unit before it is converted to. D6: the number of a number-unit pair is cut by find(|c| !c.is_ascii_digit() && c != '.'). D5: nothing reachable from check_std_entry is one of the error-discarding accessors (value_as_*(..).ok()). D4: value_as_tags returns a vector it fills by pushes that lie under the false outcomes of is_empty() and contains(). Necessary conditions: what the parsers accept is not decided.")
     chk.trusted = ["rustc MIR, resolved callees", "tables/narrow_arith.toml"]
     chk.analysed = {"facts": th}
     d1_siblings(chk, F)
@@ -63,6 +63,35 @@ def run(chk: harness.Check):
     d4_tags(chk, F)
     d5_strict(chk, F)
     d6_number_part(chk, F)
+    d7_minutes_is_time(chk, F)
+
+
+def d7_minutes_is_time(chk, F):
+    """With a user converter the target of a duration conversion is looked up by name (`min`, `minute`, `minutes`, `m`); the
+    conversion only runs under the outcome 'that unit's physical quantity is Time' — otherwise `m` = metre turns lengths into minutes."""
+    from cfgq import call_result_edges
+    fs = [g for g in F.find("metadata::dynamic_time_units") if not g.is_closure()]
+    if len(fs) != 1:
+        chk.fail("anchor-missing", "dynamic_time_units", "", "anchor-missing: metadata::dynamic_time_units not found")
+        return
+    f = fs[0]
+    conv = [b for b, t in f.calls() if (callee_key(t) or "").endswith("convert::Converter::convert")]
+    chk.floor("C13.D7-minutes-is-time", "convert calls in dynamic_time_units", len(conv), 1, f"{f.file}:{f.line}")
+    is_time = []
+    for b, t in f.calls():
+        ck = callee_key(t) or ""
+        d = (t.get("callee") or {}).get("def", "")
+        m = re.search(r"PartialEq(?:<[^>]*>)?>?::(eq|ne)$", ck) or re.search(r"PartialEq::(eq|ne)$", d)
+        if not m or len(t.get("args", [])) != 2:
+            continue
+        txt = [full(arg_expr(f, t, 0)), full(arg_expr(f, t, 1))]
+        if any("PhysicalQuantity::Time" in x for x in txt) and any("find_unit" in x or "physical_quantity" in x for x in txt):
+            te, fe = call_result_edges(f, b)
+            is_time += fe if m.group(1) == "ne" else te
+    for c in conv:
+        chk.expect(any(f.edge_dominates(e_, c) for e_ in is_time), "C13.D7-minutes-is-time", "dynamic_time_units|convert", f.where(c),
+                   "the unit found under the name of minutes is used as conversion target without having been tested to be a Time unit",
+                   sample=f"{f.where(c)}: convert(.., minutes) dominated by minutes.physical_quantity == Time")
 
 
 def d6_number_part(chk, F):
